@@ -1,4 +1,5 @@
 import EoNVerif.Proofs.ODE
+import EoNVerif.Props.C06b
 /-!
 C06 / C08 — target statements about the right-hand-side models of `EoN.analytic` (Model/ODE.lean):
 conservation and sign structure (C06), limiting cases tau = 0 and gamma = 0, final-size fixed points and the discrete
